@@ -97,13 +97,26 @@ def run(ctx):
     scs = scenarios(ctx.seed, 600 if ctx.tier == "quick" else 4000)
     results = ctx.harness("run", scs)
     reqs, where = [], []
+    after_end = {}
     for si, (sc, res) in enumerate(zip(scs, results)):
         prev = {}
+        ended = {}      # pid -> the terminal event it has delivered
         by_op = {st["op"]: st["obs"] for st in res.get("steps", [])}
         for i, op in enumerate(sc["ops"]):
             obs = by_op.get(i)
             if obs is None:
                 break
+            if op[0] == "act" and op[1] in SEVEN and op[2] in ended and si not in after_end:
+                # the process has delivered its terminal event: it is not a live process any more, whatever is left in the cache
+                r0 = [o for o in obs if o.get("k") == "res"]
+                if r0 and r0[0].get("ok"):
+                    tgt0 = [o for o in obs if o.get("k") == "target"]
+                    d0 = prev.get(op[2]) or {}
+                    t0 = next((t for t in d0.get("tasks", []) if tgt0 and t["tid"] == tgt0[0]["tid"]), None)
+                    after_end[si] = (i, op[1], ended[op[2]], (t0 or {}).get("nid"), (t0 or {}).get("state"))
+            for o in obs:
+                if o.get("k") == "pev" and o.get("chan") == "default" and o.get("ev") in ("complete", "error"):
+                    ended.setdefault(o["pid"], o.get("state"))
             if op[0] == "act":
                 tgt = [o for o in obs if o.get("k") == "target"]
                 pid = op[2]
@@ -123,6 +136,10 @@ def run(ctx):
     answers = ctx.driver(reqs)
     dist = {"accepted": 0, "rejected": {}, "by_action_state": {}}
     flagged = set()
+    for si, (i, ev, how, nid, st) in after_end.items():
+        flagged.add(si)
+        ctx.violation(f"C05|accepted-after-terminal-event|{ev}|{how}", f"op {i}: {ev} on {nid} ({st}) was accepted although the process had delivered its terminal event ({how})",
+                      {"scenario": scs[si], "op": i})
     for (si, i, before, task, outs), rq, an in zip(where, reqs, answers):
         sc, res = scs[si], results[si]
         if si in flagged:
